@@ -420,6 +420,17 @@ def native_tree_roundtrip(tier):
 
             d = mat(t)
             n += 1
+            if n % 7 == 3:
+                # the functions must have no memory: a call that fails on an out-of-domain input (a key json cannot encode, at depth >= 1)
+                # must not change what later calls on valid inputs return
+                try:
+                    flatten({"outer": {"inner": {torch.float32: torch.zeros(1)}}})
+                except BaseException:  # noqa
+                    pass
+                try:
+                    unflatten({"not json": torch.zeros(1)})
+                except BaseException:  # noqa
+                    pass
             try:
                 f = flatten(d)
                 u = unflatten(f)
